@@ -29,11 +29,20 @@ META = {
 TP = "threadpool"
 # snapshot-rule writers outside the lock that were triaged as harmless (function, statement text) -> reason
 TRIAGED_WRITERS = {
-    ("start", "self.__nb_pending_task += 1"): "only over-counts the pending tasks: growth needs pending >= true count",
+    ("start", "write of self.__nb_pending_task"): "only over-counts the pending tasks: growth needs pending >= true count",
     ("stop", "self._done_event.set()"): "the flag is set before stop takes the lock to snapshot the threads (ordering is rule C09.5)",
     ("start", "self._done_event.clear()"): "start clears the flag before any worker exists (ordering is rule C09.6)",
-    ("stop", "del self._threads[:]"): "all workers joined, single controller",
 }
+
+
+def writer_label(node, item):
+    """how a writer of a shared item is named in reports and in the triage table: by the operation, not by the spelling
+    of its arguments (`put(x, True, t)` and `put(x, block=True, timeout=t)` are the same writer)"""
+    for c in node_calls(node):
+        f = dump(c.func)
+        if f.startswith("self._queue.") or f.startswith("self._done_event."):
+            return f + "()"
+    return "write of " + item
 
 
 def norm_cmp(test, polarity):
@@ -109,8 +118,19 @@ def check(ck):
                "the thread counter is not incremented in the critical section that starts the thread", q.loc(fst, sn))
     hd = [h for h in g.live_nodes() if h.kind == "handler"]
     fail_dec = [n for n in decs if any(sub is n.ast for h in hd for st_ in h.ast.body for sub in ast.walk(st_))]
-    ck.require(len(fail_dec) == 1 and len(decs) == 1, "C10.1", "%s: counter decremented on start failure" % q.fn(fst), "one decrement, in the failure handler",
-               "the thread counter is not restored when the thread fails to start", q.loc(fst, sn))
+    # the count must be exact on the start-failure path: either the increment precedes start() and the failure handler takes
+    # it back (the decrement is then dominated by the increment: it never compensates an increment that did not happen), or
+    # the increment follows a successful start() and nothing is taken back
+    inc_first = len(incs) == 1 and incs[0].id in d[sn.id]
+    if inc_first:
+        okc = len(fail_dec) == 1 and len(decs) == 1 and incs[0].id in d[fail_dec[0].id]
+        why = "the thread counter is not restored exactly once when the thread fails to start"
+    else:
+        okc = len(incs) == 1 and sn.id in d[incs[0].id] and not decs
+        why = "the thread counter is incremented only after start() succeeded, yet the failure path decrements it (or the increment is " \
+              "not tied to the start): one failed start leaves the count one too low and the pool can exceed max_threads"
+    ck.require(okc, "C10.1", "%s: counter exact on the start-failure path" % q.fn(fst),
+               "increment before start() + one compensating decrement in the failure handler", why, q.loc(fst, sn))
 
     # ---- C10.2 argument validation ------------------------------------------------------------------------
     n2 = 0
@@ -272,10 +292,11 @@ def check(ck):
             for (wf, wn, wheld) in writers.get(item, []):
                 if "__lock" in wheld:
                     continue
-                key = (wf.name, q.stmt_text(wn))
+                wl = writer_label(wn, item)
+                key = (wf.name, wl)
                 if key in TRIAGED_WRITERS:
                     continue
-                construct = "%s: %s reads %s; writer `%s` in %s runs outside the lock" % (q.fn(fi), what, item, q.stmt_text(wn)[:50], wf.name)
+                construct = "%s: %s reads %s; writer %s in %s runs outside the lock" % (q.fn(fi), what, item, wl, wf.name)
                 if construct in reported:
                     continue
                 reported.add(construct)
@@ -288,10 +309,12 @@ def check(ck):
     # ---- C10.6 no blocking call while holding the pool lock ------------------------------------------------------------
     n6 = 0
     for fi in ci.methods.values():
+        ordinal = {}
         for (n, c, kind) in cl.blocking_calls(fi):
             n6 += 1
             held = cl.held(fi, n)
-            ck.require("__lock" not in held, "C10.6", "%s: %s `%s`" % (q.fn(fi), kind, dump(c)[:50]), "called without the pool lock",
+            ordinal[kind] = ordinal.get(kind, 0) + 1
+            ck.require("__lock" not in held, "C10.6", "%s: %s #%d" % (q.fn(fi), kind, ordinal[kind]), "called without the pool lock",
                        "the blocking call `%s` is made while holding the pool lock: every worker that needs the lock (to update its "
                        "counters, to retire) waits as long as this call blocks" % dump(c)[:60], q.loc(fi, n))
     # calls to own methods that block (clear -> join) while holding the lock
@@ -379,6 +402,22 @@ def check(ck):
             elif n.kind == "stmt" and isinstance(n.ast, ast.Assign) and any(dump(t) == "self.__nb_pending_task" for t in n.ast.targets):
                 ck.bad("C10.7b", "%s: `%s`" % (q.fn(fi), q.stmt_text(n)), "the pending-task counter is overwritten instead of counted "
                        "(+1 per queued task, -1 per executed task)", q.loc(fi, n))
+    # every queued task is counted: in enqueue, the increment post-dominates the put on normal paths
+    fenq = prog.func(TP, "ThreadPool.enqueue")
+    genq = cfg_of(fenq)
+    from vlib.flow import postdominators, NORMAL
+    pdq = postdominators(genq, [genq.return_exit.id], NORMAL)
+    puts_q = [m for m in genq.live_nodes() for c in node_calls(m) if dump(c.func) == "self._queue.put"]
+    incs_q = [m for m in genq.live_nodes() if m.kind == "stmt" and isinstance(m.ast, ast.AugAssign) and dump(m.ast.target) == "self.__nb_pending_task"
+              and isinstance(m.ast.op, ast.Add)]
+    if not puts_q:
+        raise AnalysisError("anchor vanished: queue.put in ThreadPool.enqueue")
+    for pn in puts_q:
+        ck.require(any(i_.id in pdq[pn.id] for i_ in incs_q), "C10.7b", "%s: every queued task is counted" % q.fn(fenq),
+                   "the pending increment follows the put on every normal path",
+                   "a task can be queued without the pending-task counter being incremented (the increment is conditional or missing): the "
+                   "decrement of its execution then drives the counter below the number of waiting tasks and the pool stops growing while "
+                   "tasks wait", q.loc(fenq, pn))
     # the retirement decision and its accounting belong to one critical section
     for w in [w for w in ast.walk(frun.node) if isinstance(w, ast.If) and "_min_threads" in dump(w.test)]:
         has_dec = any(isinstance(x, ast.AugAssign) and dump(x.target) == "self.__nb_threads" and isinstance(x.op, ast.Sub) for st_ in w.body for x in ast.walk(st_))
